@@ -12,6 +12,8 @@ Decided statically:
                exchanges adjacent elements, and only on a strict comparison (stability); key values are
                computed from the elements themselves, not looked up in a table keyed by language values
                (whose hashing identifies 1 with 1.0)
+  C07.minmax   min / max in the core module compare keys with `<` / `>` only (first of equal elements wins) and
+               scan the list once
   C07.views    the sorted enumeration views of sets and map keys are sorted(<payload>) under the values' own
                order (no key function, no shortcut by host type)
 Not decided: transitivity for mixed int/decimal at large magnitude; min/max in core.ckl beyond using < and >.
@@ -190,6 +192,7 @@ def run(ctx):
     ctx.check("C07.sorted", fs, None, ok, "cmp is not applied to key(result[i]) and key(result[j]) computed on the spot",
               expr="cmp(key(x), key(y))", site="FuncSorted.execute: cmp(key(result[i]), key(result[j]))")
 
+    minmax(ctx, model)
     # ---------------------------------------------------------------- sorted views
     for cname, mname, want in (("ValueSet", "getSortedItems", "return sorted(self.value)"),
                                ("ValueMap", "getSortedKeys", "return sorted(self.value.keys())")):
@@ -198,3 +201,36 @@ def run(ctx):
         ctx.check("C07.views", m, None, ok,
                   f"{cname}.{mname} is not `{want[7:]}`: the enumeration order of sets / map keys must be the values' "
                   f"own order for every element kind", expr=f"{cname}.{mname}", site=f"{cname}.{mname}: {want[7:]}")
+
+
+def minmax(ctx, model):
+    """core.ckl min / max: the scan keeps the element whose key is strictly smaller / greater than the best so far
+    (first of equal elements wins), compares keys with < / > only, and looks at every element."""
+    from .. import cklsrc
+    src = model.ckl_modules.get("core.ckl")
+    if src is None:
+        ctx.broken("modules/core.ckl", "missing")
+    try:
+        toks = cklsrc.tokenize(src[0])
+        funcs = {f.name: f for f in cklsrc.functions(toks) if f.parent is None}
+    except cklsrc.CklTokenError as e:
+        ctx.broken("modules/core.ckl", str(e))
+    for name, op in (("min", "<"), ("max", ">")):
+        f = funcs.get(name)
+        if f is None:
+            ctx.broken(f"core.ckl {name}", "function not found")
+        body = cklsrc.own_body(f)
+        # comparisons between identifiers in the body
+        cmps = [(body[i - 1].text, body[i].text, body[i + 1].text) for i in range(1, len(body) - 1)
+                if body[i].kind == "p" and body[i].text in ("<", ">", "<=", ">=") and body[i - 1].kind in ("id", "p")]
+        ops = {c[1] for c in cmps}
+        ok = ops == {op}
+        ctx.check("C07.minmax", f"modules/core.ckl:{name}", None, ok,
+                  f"core.ckl {name} compares with {sorted(ops)} (expected only `{op}`): ties or the direction of the "
+                  f"scan change, so {name} disagrees with the order on equal or reversed inputs",
+                  expr=f"{name} comparison operators", site=f"modules/core.ckl: {name} uses only `{op}`")
+        loops = [i for i, t in enumerate(body) if t.is_id("for")]
+        ok = len(loops) == 1
+        ctx.check("C07.minmax", f"modules/core.ckl:{name}", None, ok,
+                  f"core.ckl {name} does not scan its list in exactly one loop", expr=f"{name} scan loop",
+                  site=f"modules/core.ckl: {name} scans every element once")
